@@ -26,6 +26,8 @@ OBLIGATIONS = [
     "C05_unrolled_weights", "C05_burn_in_flag", "C05_power_guard", "C05_n_burn_explicit", "C05_n_burn_fraction",
     "C05_tie_is_burn_in", "C05_tie_memoryless", "C05_tie_burn_flag", "C05_tie_step", "C05_tie_convex",
     "C05_tie_convexQ", "C05_tie_power_guard", "C05_tie_n_burn",
+    # where the explicit count / the fraction come from: the settings object (Api/Settings.v, tied by the C13 check)
+    "C05_settings_explicit_count", "C05_settings_default_fraction",
 ]
 
 HEADER = """(* REGENERATED on every run from $VERIF_REPO/src/leaspy by harness/props/c05.py — do not edit *)
